@@ -66,6 +66,7 @@ type Sel struct {
 // SelBegin is the scheduling point of a select with n communication cases.
 // Outside a simulation Plain() is true and the generated code falls through
 // to the original blocking select.
+//go:norace
 func SelBegin(n int) Sel {
 	t := Pre("select")
 	if t == nil {
@@ -80,9 +81,11 @@ func SelBegin(n int) Sel {
 }
 
 // Plain reports that no simulation is active for this select.
+//go:norace
 func (s Sel) Plain() bool { return s.t == nil }
 
 // Order returns the order in which ready cases are tried.
+//go:norace
 func (s Sel) Order() []int {
 	o := make([]int, s.n)
 	for i := range o {
@@ -92,9 +95,11 @@ func (s Sel) Order() []int {
 }
 
 // Hit records that case i was taken by a non-blocking try (evidence).
+//go:norace
 func (s Sel) Hit(i int) {}
 
 // End re-acquires the token after the (possibly blocking) select.
+//go:norace
 func (s Sel) End() { Post(s.t) }
 
 // ---- go statements ----
@@ -116,6 +121,7 @@ func Go4[A, B, C, D any](f func(A, B, C, D), a A, b B, c C, d D) {
 	Go(fname(f), func() { f(a, b, c, d) })
 }
 
+//go:norace
 func fname(f interface{}) string {
 	if Active() == nil {
 		return ""
@@ -126,8 +132,9 @@ func fname(f interface{}) string {
 // ---- map iteration ----
 
 type mapOrder struct {
+	ptr  uintptr
 	keep interface{} // the map itself, so its address is not reused during the run
-	seq  map[interface{}]uint64
+	keys []interface{}
 	next uint64
 }
 
@@ -138,17 +145,51 @@ func MapNote[K comparable, V any](m map[K]V, k K) {
 	if t == nil {
 		return
 	}
-	s := t.sim
-	p := reflect.ValueOf(m).Pointer()
-	mo := s.mapReg[p]
+	mapNote(t.sim, reflect.ValueOf(m).Pointer(), m, k)
+}
+
+//go:norace
+func mapEntry(s *Sim, p uintptr) *mapOrder {
+	for _, mo := range s.mapReg {
+		if mo.ptr == p {
+			return mo
+		}
+	}
+	return nil
+}
+
+//go:norace
+func mapNote(s *Sim, p uintptr, m interface{}, k interface{}) {
+	mo := mapEntry(s, p)
 	if mo == nil {
-		mo = &mapOrder{keep: m, seq: map[interface{}]uint64{}}
-		s.mapReg[p] = mo
+		mo = &mapOrder{ptr: p, keep: m}
+		s.mapReg = append(s.mapReg, mo)
 	}
-	if _, ok := mo.seq[k]; !ok {
-		mo.next++
-		mo.seq[k] = mo.next
+	for _, x := range mo.keys {
+		if x == k {
+			return
+		}
 	}
+	mo.keys = append(mo.keys, k)
+}
+
+//go:norace
+func mapSeq(s *Sim, p uintptr, k interface{}) uint64 {
+	if mo := mapEntry(s, p); mo != nil {
+		for i, x := range mo.keys {
+			if x == k {
+				return uint64(i + 1)
+			}
+		}
+	}
+	s.counters.add("warn.unordered_map_key", 1)
+	return ^uint64(0)
+}
+
+//go:norace
+func mapPerm(s *Sim, n int) []int {
+	s.counters.add("sched.map_range_permuted", 1)
+	return s.S.Perm(n)
 }
 
 // MapKeys returns the keys of m in an order decided by the run's choice
@@ -175,23 +216,26 @@ func MapKeys[K comparable, V any](m map[K]V) []K {
 	case uint64:
 		sort.Slice(keys, func(i, j int) bool { return any(keys[i]).(uint64) < any(keys[j]).(uint64) })
 	default:
-		mo := s.mapReg[reflect.ValueOf(m).Pointer()]
-		seq := func(k K) uint64 {
-			if mo != nil {
-				if q, ok := mo.seq[k]; ok {
-					return q
-				}
-			}
-			s.Counters["warn.unordered_map_key"]++
-			return ^uint64(0)
+		p := reflect.ValueOf(m).Pointer()
+		seqs := make([]uint64, len(keys))
+		for i, k := range keys {
+			seqs[i] = mapSeq(s, p, k)
 		}
-		sort.SliceStable(keys, func(i, j int) bool { return seq(keys[i]) < seq(keys[j]) })
+		idx := make([]int, len(keys))
+		for i := range idx {
+			idx[i] = i
+		}
+		sort.SliceStable(idx, func(a, b int) bool { return seqs[idx[a]] < seqs[idx[b]] })
+		sorted := make([]K, len(keys))
+		for i, j := range idx {
+			sorted[i] = keys[j]
+		}
+		keys = sorted
 	}
-	p := s.S.Perm(len(keys))
+	p := mapPerm(s, len(keys))
 	out := make([]K, len(keys))
 	for i, j := range p {
 		out[i] = keys[j]
 	}
-	s.Counters["sched.map_range_permuted"]++
 	return out
 }
